@@ -1,14 +1,297 @@
-//! C08 harness (stub).
+//! C08: gather on the on-disk (RocksDB) index returns the greedy minimum set cover with
+//! consistent statistics.
+//!
+//! Request lines of one case (`case <n> <scaled> <track 0|1>`):
+//!   `d <hashes>`            append a dataset (id = position), answer `ok`
+//!   `q <hashes> <abunds>`   set the query (abunds `-` or one per hash), answer `ok`
+//!   `gather <t>`            every field of every GatherResult (model column)
+//!   `cover <t>`             per match `name:unique overlap:f_match bits`            (spec column)
+//!   `stats <t>`             per match `rank:unique_bp:remaining_bp:f_unique bits`   (spec column)
+//!   `wstats <t>`            per match `n_unique_weighted:sum_weighted:total_weighted:f_unique_weighted bits`
+//! The index is a real `RevIndex::create` on a scratch directory, built once per case.
+use sourmash::index::revindex::{RevIndex, RevIndexOps};
+use sourmash::index::GatherResult;
+use sourmash::signature::SigsTrait;
+use verif_harness::index_util::*;
 use verif_harness::*;
 
-fn gen(_a: &Args) {
-    let mut o = Out::new();
-    o.case("stub");
+// ------------------------------------------------------------------------------------------ gen
+
+fn subset(r: &mut Rng, from: &[u64], num: u64, den: u64) -> Vec<u64> {
+    from.iter().copied().filter(|_| r.chance(num, den)).collect()
 }
 
-fn step(_: &mut (), ws: &[&str]) -> String {
+fn pick_k(r: &mut Rng, from: &[u64], k: usize) -> Vec<u64> {
+    let mut v: Vec<u64> = from.to_vec();
+    let mut out = vec![];
+    while out.len() < k && !v.is_empty() {
+        let i = r.below(v.len() as u64) as usize;
+        out.push(v.swap_remove(i));
+    }
+    out.sort();
+    out
+}
+
+fn union(a: &[u64], b: &[u64]) -> Vec<u64> {
+    let mut v: Vec<u64> = a.iter().chain(b.iter()).copied().collect();
+    v.sort();
+    v.dedup();
+    v
+}
+
+fn gen_case(r: &mut Rng, o: &mut Out) {
+    let scaled = *r.pick(&[1u64, 2]);
+    let track = r.chance(1, 2);
+    // universe: <= 40 hashes, all below the ceiling of scaled = 2 (2^63)
+    let usize_ = match r.below(6) {
+        0 => r.range(1, 6),
+        1 => r.range(6, 14),
+        _ => r.range(10, 40),
+    } as usize;
+    let mut uni: Vec<u64> = vec![];
+    let big = r.chance(1, 3);
+    while uni.len() < usize_ {
+        let h = if big && r.chance(1, 2) { r.bits(62) } else { r.range(0, 60) };
+        if !uni.contains(&h) {
+            uni.push(h);
+        }
+    }
+    uni.sort();
+    // query
+    let q: Vec<u64> = match r.below(12) {
+        0 => vec![],
+        1 => uni.clone(),
+        2 | 3 => subset(r, &uni, 1, 4),
+        _ => {
+            let num = r.range(2, 5);
+            subset(r, &uni, num, 5)
+        }
+    };
+    let not_q: Vec<u64> = uni.iter().copied().filter(|h| !q.contains(h)).collect();
+    let nd = r.range(1, 8) as usize;
+    let mut ds: Vec<Vec<u64>> = vec![];
+    for _ in 0..nd {
+        let prev: Option<Vec<u64>> = if ds.is_empty() { None } else { Some(r.pick(&ds).clone()) };
+        let kind = r.below(14);
+        let d: Vec<u64> = match (kind, prev) {
+            (0, Some(p)) => p,                                             // duplicate
+            (1, Some(p)) => subset(r, &p, 1, 2),                            // nested inside
+            (2, Some(p)) => union(&p, &subset(r, &uni, 1, 4)),              // superset
+            (3, Some(p)) => {
+                // same overlap with the query as an earlier dataset (tie), different members
+                let k = p.iter().filter(|h| q.contains(h)).count();
+                union(&pick_k(r, &q, k), &subset(r, &not_q, 1, 3))
+            }
+            (4, Some(p)) => {
+                // same overlap, shares hashes with p (the tie breaks after the first removal)
+                let inq: Vec<u64> = p.iter().copied().filter(|h| q.contains(h)).collect();
+                let keep = pick_k(r, &inq, inq.len() / 2);
+                let rest: Vec<u64> = q.iter().copied().filter(|h| !inq.contains(h)).collect();
+                union(&union(&keep, &pick_k(r, &rest, inq.len() - keep.len())), &subset(r, &not_q, 1, 4))
+            }
+            (5, _) => subset(r, &not_q, 1, 2),                              // disjoint from the query
+            (6, _) => q.clone(),                                           // the query itself
+            (7, _) => subset(r, &q, 1, 2),                                  // inside the query
+            (8, _) => {
+                // tiny
+                let k = r.range(1, 3) as usize;
+                pick_k(r, &uni, k)
+            }
+            (9, _) => uni.clone(),                                         // everything
+            _ => {
+                let num = r.range(1, 4);
+                subset(r, &uni, num, 5)
+            }
+        };
+        // an empty sketch cannot be told apart from a missing one by the manifest; keep >= 1 hash
+        let d = if d.is_empty() { vec![*r.pick(&uni)] } else { d };
+        ds.push(d);
+    }
+    o.case(&format!("{} {}", scaled, track as u8));
+    for d in &ds {
+        o.op(&format!("d {}", show_nats(d.iter().copied())));
+    }
+    let ab: Vec<u64> = q
+        .iter()
+        .map(|_| match r.below(10) {
+            0 => r.bits(40).max(1),
+            1 | 2 => 1,
+            _ => r.range(1, 6),
+        })
+        .collect();
+    o.op(&format!(
+        "q {} {}",
+        show_nats(q.iter().copied()),
+        if track { show_nats(ab.iter().copied()) } else { "-".into() }
+    ));
+    for t in 0..=5u64 {
+        o.op(&format!("gather {}", t));
+        o.op(&format!("cover {}", t));
+        o.op(&format!("stats {}", t));
+        o.op(&format!("wstats {}", t));
+    }
+    // a threshold at / next to the largest overlap, and one far above everything
+    let best = ds.iter().map(|d| d.iter().filter(|h| q.contains(h)).count() as u64).max().unwrap_or(0);
+    for t in [best.saturating_sub(1), best, best + 1, 1000] {
+        if t > 5 {
+            o.op(&format!("gather {}", t));
+            o.op(&format!("cover {}", t));
+        }
+    }
+}
+
+fn gen(a: &Args) {
+    let mut r = Rng::new(a.seed);
+    let mut o = Out::new();
+    let n = if a.cases > 0 {
+        a.cases
+    } else if a.tier == "thorough" {
+        4000
+    } else {
+        200
+    };
+    for _ in 0..n {
+        gen_case(&mut r, &mut o);
+    }
+}
+
+// ----------------------------------------------------------------------------------------- exec
+
+struct St {
+    scaled: u64,
+    track: bool,
+    ds: Vec<Vec<u64>>,
+    q: Vec<u64>,
+    ab: Vec<u64>,
+    index: Option<(tempfile::TempDir, RevIndex)>,
+}
+
+fn new_state() -> St {
+    St { scaled: 1, track: false, ds: vec![], q: vec![], ab: vec![], index: None }
+}
+
+fn bits(x: f64) -> String {
+    format!("{:016x}", x.to_bits())
+}
+
+fn run_gather(s: &mut St, t: usize) -> Result<Vec<GatherResult>, String> {
+    if s.index.is_none() {
+        let sigs: Vec<_> = s
+            .ds
+            .iter()
+            .enumerate()
+            .map(|(i, d)| make_sig(&format!("d{}", i), d, None, s.scaled))
+            .collect();
+        let dir = scratch_dir();
+        let idx = RevIndex::create(dir.path().join("idx"), mem_collection(sigs), false)
+            .map_err(|e| format!("err {:?}", e))?;
+        s.index = Some((dir, idx));
+    }
+    let idx = &s.index.as_ref().unwrap().1;
+    let qmh = make_mh(&s.q, if s.track { Some(&s.ab) } else { None }, s.scaled);
+    assert_eq!(qmh.size(), s.q.len());
+    let (counter, query_colors, hash_to_color) = idx.prepare_gather_counters(&qmh);
+    idx.gather(counter, query_colors, hash_to_color, t, &qmh, None)
+        .map_err(|e| format!("err {:?}", e))
+}
+
+fn join(rows: Vec<String>) -> String {
+    if rows.is_empty() {
+        "-".into()
+    } else {
+        rows.join(";")
+    }
+}
+
+fn step(s: &mut St, ws: &[&str]) -> String {
     match ws[0] {
-        "case" => "ok".into(),
+        "case" => {
+            s.scaled = ws.get(2).map(|x| x.parse().unwrap()).unwrap_or(1);
+            s.track = ws.get(3).map(|x| *x == "1").unwrap_or(false);
+            "ok".into()
+        }
+        "d" => {
+            s.ds.push(parse_nats(ws[1]));
+            s.index = None;
+            "ok".into()
+        }
+        "q" => {
+            s.q = parse_nats(ws[1]);
+            s.ab = parse_nats(ws.get(2).copied().unwrap_or("-"));
+            if s.track && s.ab.len() != s.q.len() {
+                s.ab = vec![1; s.q.len()];
+            }
+            "ok".into()
+        }
+        "gather" | "cover" | "stats" | "wstats" => {
+            let t: usize = ws[1].parse().unwrap();
+            if s.ds.is_empty() {
+                return "no-datasets".into();
+            }
+            let res = match run_gather(s, t) {
+                Ok(r) => r,
+                Err(e) => return e,
+            };
+            let sc = s.scaled as usize;
+            join(match ws[0] {
+                "gather" => res
+                    .iter()
+                    .map(|g| {
+                        format!(
+                            "{},{},{},{},{},{},{},{},{},{},{},{},{},{},{},{},{},{},{},{}",
+                            g.name(),
+                            g.gather_result_rank(),
+                            g.intersect_bp(),
+                            g.unique_intersect_bp(),
+                            g.remaining_bp(),
+                            g.n_unique_weighted_found(),
+                            g.sum_weighted_found(),
+                            g.total_weighted_hashes(),
+                            bits(g.f_orig_query()),
+                            bits(g.f_match()),
+                            bits(g.f_unique_to_query()),
+                            bits(g.f_unique_weighted()),
+                            bits(g.f_match_orig()),
+                            bits(g.average_abund()),
+                            bits(g.median_abund()),
+                            bits(g.std_abund()),
+                            bits(g.query_containment_ani()),
+                            bits(g.match_containment_ani()),
+                            bits(g.average_containment_ani()),
+                            bits(g.max_containment_ani()),
+                        )
+                    })
+                    .collect(),
+                "cover" => res
+                    .iter()
+                    .map(|g| format!("{}:{}:{}", g.name(), g.unique_intersect_bp() / sc, bits(g.f_match())))
+                    .collect(),
+                "stats" => res
+                    .iter()
+                    .map(|g| {
+                        format!(
+                            "{}:{}:{}:{}",
+                            g.gather_result_rank(),
+                            g.unique_intersect_bp(),
+                            g.remaining_bp(),
+                            bits(g.f_unique_to_query())
+                        )
+                    })
+                    .collect(),
+                _ => res
+                    .iter()
+                    .map(|g| {
+                        format!(
+                            "{}:{}:{}:{}",
+                            g.n_unique_weighted_found(),
+                            g.sum_weighted_found(),
+                            g.total_weighted_hashes(),
+                            bits(g.f_unique_weighted())
+                        )
+                    })
+                    .collect(),
+            })
+        }
         _ => "bad-op".into(),
     }
 }
@@ -17,7 +300,7 @@ fn main() {
     let a = args();
     match a.mode.as_str() {
         "gen" => gen(&a),
-        "exec" => exec_loop(|| (), step),
+        "exec" => exec_loop(new_state, step),
         _ => panic!("mode"),
     }
 }
